@@ -173,7 +173,31 @@ def _check_C01_at_literals(case, R):
         U.check_keys("C01", nd, spec, _l2c(spec), t, rep_("key"))
 
 
+def _check_C01_tabs(case, R):
+    """Delivered text = the document with TABs after blank-node labels / language tags / datatype suffixes; the oracle
+    reads the ordinary rendering of the same graph."""
+    nt, delivered = case["nt"], U.tabify(case["nt"])
+    specs = _SpecCache(U.parse_nt(nt))
+    for run in case["runs"]:
+        cfg, t = run["cfg"], run["t"]
+        try:
+            nd = R.run(delivered, cfg, t)
+        except U.Skipped:
+            continue
+        spec = specs.get(cfg)
+
+        def rep_(kind, run=run):
+            def f(key, what, obs, exp):
+                R.emit("C01:tab-after-token:%s-mismatch" % kind, "[%s] %s" % (key, what),
+                       {"pid": "C01", "kind": "tabs", "nt": nt, "runs": [run]}, observed=obs, expected=exp)
+            return f
+        U.check_figures("C01", nd, spec, _l2c(spec), cfg, rep_("figure"))
+        U.check_keys("C01", nd, spec, _l2c(spec), t, rep_("key"))
+
+
 def check_C01(case, R):
+    if case.get("kind") == "tabs":
+        return _check_C01_tabs(case, R)
     if case.get("kind") == "at-literals":
         return _check_C01_at_literals(case, R)
     if case.get("kind") == "or":
@@ -579,6 +603,33 @@ def check_C13(case, R):
             R.emit(key, what, {"pid": "C13", "nt": nt, "base": base, "t": t, "pairs": [[opt, va, vb]]},
                    observed=obs, expected=exp)
 
+        if opt == "disable_or_statements":            # a: False (disjunctions), b: True
+            for sh_or in a:
+                sh_no = [x for x in b if x["label"] == sh_or["label"]]
+                if not sh_no:
+                    emit("C13:or-statements:shape-set", "shape %s exists only with disable_or_statements=False" % sh_or["label"], None, None)
+                    continue
+                plain = dict(((c["inv"], c["p"], c["value"]), c) for c in sh_no[0]["cons"])
+                by_p = {}
+                for c in sh_no[0]["cons"]:
+                    if c["value"][0] in ("IRI", "BNode", "NONLITERAL", "shape"):
+                        by_p[(c["inv"], c["p"])] = c
+                for c in sh_or["cons"]:
+                    if c["value"][0] == "or":
+                        ref = by_p.get((c["inv"], c["p"]))
+                        if ref is None or ref["value"] not in c["value"][1] or ref["card"] != c["card"]:
+                            emit("C13:or-statements:dominant-replaced",
+                                 "%s %s: with disjunctions %r (cardinality %r) but without them %r (cardinality %r): the disjunction is not "
+                                 "over the alternatives of the single constraint" % (sh_or["label"], c["p"], c["value"], c["card"],
+                                                                                     ref and ref["value"], ref and ref["card"]),
+                                 repr(c["value"]), repr(ref and ref["value"]))
+                    elif (c["inv"], c["p"], c["value"]) not in plain or plain[(c["inv"], c["p"], c["value"])]["card"] != c["card"]:
+                        emit("C13:or-statements:other-change", "%s: constraint %r (cardinality %r) exists only with disable_or_statements=False"
+                             % (sh_or["label"], (c["inv"], c["p"], c["value"]), c["card"]), repr(c["value"]), None)
+                if len(sh_or["cons"]) != len(sh_no[0]["cons"]):
+                    emit("C13:or-statements:other-change", "%s: %d constraints with disjunctions, %d without" %
+                         (sh_or["label"], len(sh_or["cons"]), len(sh_no[0]["cons"])), len(sh_or["cons"]), len(sh_no[0]["cons"]))
+            continue
         if opt in ("disable_comments", "decimals", "instances_report_mode", "namespaces_dict", "shapes_namespace"):
             by_local = opt == "shapes_namespace"
             sa, sb = _structure(a, by_local), _structure(b, by_local)
@@ -1053,6 +1104,23 @@ def check_C10(case, R):
         return _check_C10_mixed(case, R, T, emit)
     if kind == "target-spelling":
         return check_target_spelling(case, R)
+    if kind in ("class-file", "class-case"):
+        tag = "C10:" + kind
+        classes = case["classes"]
+        if case.get("file_text") is not None:
+            run_cfg = _merge(cfg, {"_class_file": case["file_text"]})
+        else:
+            run_cfg = _merge(cfg, {"target_classes": classes})
+        try:
+            nd = R.run(nt, run_cfg, t)
+        except U.Skipped:
+            return
+        ocfg = _merge(cfg, {"target_classes": classes})
+        spec = U.spec_for(T, ocfg)
+        l2c = dict((U.SHAPES_NS + U.local_name(C), C) for C in spec.N)
+        U.check_figures(tag, nd, spec, l2c, ocfg, emit)
+        U.check_keys(tag, nd, spec, l2c, t, emit)
+        return
     if kind == "shaper-pair":
         # two Shapers in ONE process, same prefixed class list, the prefix bound to different namespaces
         for nsx in case["namespaces"]:
@@ -1465,6 +1533,12 @@ def _extra_cases(pid, tier, rng, n_enum, n_rand):
             runs = [{"cfg": _merge(_mode_cfg(m), {"inverse_paths": True} if inv else {}), "t": 0} for m in ("all", "A") for inv in (False, True)]
             out.append({"pid": pid, "kind": "duplicates", "dup_kind": dk, "origin": "duplicate-lines", "nt": U.to_nt(T2), "runs": runs})
     if pid == "C01":
+        for gi in range(n_of(10)):                     # TAB directly after blank-node labels, language tags, datatype suffixes
+            T = U.rand_graph(rng, n_nodes=rng.randint(3, 6), n_triples=rng.randint(6, 16), n_classes=2, n_props=3, p_bnode=0.5,
+                             p_literal=0.5, p_link_typed=0.8, extra_literals=(M.Lit("hi", lang="en"), M.Lit("5", dt=M.XSD_INTEGER)))
+            runs = [{"cfg": _merge(_mode_cfg(m), {"inverse_paths": True} if (gi + i) % 2 else {}), "t": t}
+                    for i, m in enumerate(("all", "A")) for t in (0, 0.5)]
+            out.append({"pid": pid, "kind": "tabs", "origin": "tab-after-token", "nt": U.to_nt(T), "runs": runs})
         at_lits = [M.Lit("Bob @ work", lang="en"), M.Lit("contact @ st. john", lang="en-GB"), M.Lit("dave@ex.org", lang="en"),
                    M.Lit("mail me @ home"), M.Lit("a@b c", dt=U.DT_FOO), M.Lit("x @ y @ z", lang="fr"), M.Lit("@home"),
                    M.Lit("7 @ 8", dt=M.XSD_INTEGER)]
@@ -1643,6 +1717,51 @@ def _extra_cases(pid, tier, rng, n_enum, n_rand):
             cfg = _merge({"inverse_paths": True}, {"all_classes_mode": True} if gi % 2 else {})
             for t in (1, 0.6, 0):
                 out.append({"pid": pid, "kind": "shapemap-gone", "origin": "shapemap-gone", "nt": U.to_nt(T), "cfg": cfg, "t": t, "items": items})
+    if pid == "C10":
+        for gi in range(n_of(10)):                     # class files with blank lines; class IRIs differing only in letter case
+            custom = gi % 2 == 1
+            pi = U.PI_ISA if custom else M.RDF_TYPE
+            cls = [G.EX + "Person", G.EX + "person", G.CLASS_B, G.EX + "C"]
+            T = U.rand_graph(rng, n_nodes=rng.randint(4, 8), n_triples=rng.randint(6, 16), n_props=3, p_bnode=0.0, p_typed=0.9,
+                             max_types=2, classes=cls, pi=pi, extra_props=(M.RDF_TYPE,) if custom else ())
+            base = _merge({"instantiation_property": U.PI_ISA} if custom else {}, {"inverse_paths": True} if gi % 4 >= 2 else {})
+            listed = [cls[0], cls[2], cls[3]] if gi % 3 else [cls[1], cls[3], cls[2]]
+            spelled = [_spell(c, ("full", "bracketed", "prefixed")[(gi + i) % 3]) for i, c in enumerate(listed)]
+            text = spelled[0] + "\n\n" + spelled[1] + "\n   \n" + spelled[2] + "\n"
+            out.append({"pid": pid, "kind": "class-file", "origin": "class-file", "nt": U.to_nt(T), "cfg": base, "t": 0,
+                        "classes": listed, "file_text": text})
+            one = [cls[gi % 2]]
+            out.append({"pid": pid, "kind": "class-case", "origin": "class-case", "nt": U.to_nt(T), "cfg": base, "t": (0, 0.5)[gi % 2],
+                        "classes": one})
+            out.append({"pid": pid, "kind": "class-case", "origin": "class-case", "nt": U.to_nt(T), "cfg": base, "t": 0,
+                        "classes": one, "file_text": _spell(one[0], "bracketed") + "\n"})
+    if pid == "C12":
+        for gi in range(n_of(10)):                     # ex:link held by every <A> node: some via one <U> value, some via two plain IRIs
+            nu = 3
+            Un = [M.IRI(G.EX + "u%d" % i) for i in range(nu)]
+            n_ref, n_iri = (3, 2) if gi % 2 == 0 else (rng.randint(2, 4), rng.randint(1, 3))
+            An = [M.IRI(G.EX + "a%d" % i) for i in range(n_ref + n_iri)]
+            T = []
+            for i, y in enumerate(Un):
+                T.append(M.Triple(y, G.EX + "only%d" % i, M.Lit("v")))
+            for i, x in enumerate(An):
+                T.append(M.Triple(x, G.EX + "name", M.Lit("n")))
+                if i < n_ref:
+                    T.append(M.Triple(x, G.EX + "link", Un[i % nu]))
+                else:
+                    T += [M.Triple(x, G.EX + "link", M.IRI(G.OTHER + "p%d_%d" % (i, j))) for j in range(2)]
+            rng.shuffle(T)
+            items = [{"sel": {"form": "node", "node": x.iri}, "label": U.ALT_SHAPES_NS + "A"} for x in An] + \
+                    [{"sel": {"form": "node", "node": y.iri}, "label": U.ALT_SHAPES_NS + "U"} for y in Un]
+            out.append({"pid": pid, "origin": "link-through-emptied-label", "nt": U.to_nt(T), "items": items, "cfgs": [{}],
+                        "thresholds": "grid" if gi % 2 else [0, 0.3, 0.4, 0.5, 0.6, 0.7, 1]})
+    if pid == "C13":
+        for gi in range(n_of(8)):                      # blank-node values with several shapes among them plus untyped values
+            T = U.rand_graph(rng, n_nodes=rng.randint(4, 7), n_triples=rng.randint(8, 18), n_classes=3, n_props=2, p_bnode=0.6,
+                             p_typed=0.8, max_types=2, p_literal=0.1, p_link_typed=0.7)
+            out.append({"pid": pid, "origin": "or-with-bnodes", "nt": U.to_nt(T),
+                        "base": _merge(_mode_cfg(("all", "AB")[gi % 2]), _switch_combo(rng, 0.2) if gi % 3 == 0 else {}),
+                        "t": (0, 0.5)[gi % 2], "pairs": [["disable_or_statements", False, True]]})
     if pid == "C12":
         for gi in range(n_of(8)):                      # label A whose ex:ref values are all instances of a label B that empties
             na, nb = rng.randint(1, 3), rng.randint(2, 4)
@@ -2396,6 +2515,78 @@ def _mutants():
                 return uri1[:[x == y for x, y in zip(uri1, uri2)].index(False)]
         return uri2
 
+    # ---- fifth round ------------------------------------------------------------------------------
+    import shexer.model.IRI as iri_mod
+    from shexer.model.fixed_prop_choice_statement import FixedPropChoiceStatement
+
+    def unspaced_token_space_only(self, target_str, first_index):
+        index = target_str.find(" ", first_index)
+        if index == -1:
+            index = len(target_str)
+        index -= 1
+        if index == len(target_str) - 1 and target_str[index] == "." and index > first_index:
+            index -= 1
+        return index
+
+    def read_classes_break_on_blank(file_target_classes, prefix_namespaces_dict):
+        result = []
+        with open(file_target_classes, "r") as in_stream:
+            for a_line in in_stream:
+                candidate = a_line.strip()
+                if candidate == "":
+                    break
+                result.append(candidate)
+        return tyf.tune_target_classes_if_needed(list_target_classes=result, prefix_namespaces_dict=prefix_namespaces_dict)
+
+    def patch_read_classes():
+        undo = [setattr_patch(m, "read_target_classes_from_file", read_classes_break_on_blank)() for m in (tyf, itf)
+                if hasattr(m, "read_target_classes_from_file")]
+        return lambda: [u() for u in undo]
+
+    def iri_eq_lower(self, other):
+        if type(other) != type(self):
+            return False
+        return str(self).lower() == str(other).lower()
+
+    def useless_closure_without_abs(self, list_of_candidate_sentences):
+        if len(list_of_candidate_sentences) != 2:
+            return False
+        if list_of_candidate_sentences.get(1).probability - list_of_candidate_sentences.get(0).probability > self._tolerance:
+            return False
+        flag = -1
+        for a_statement in list_of_candidate_sentences.constraints():
+            if "+" == a_statement.cardinality:
+                flag *= -1
+        return flag == 1
+
+    def tune_or_not_iri(self):
+        if self._disable_or:
+            return
+        st_types = []
+        if self._redundant_or_enabled:
+            if self._dominant_constraint not in self._shape_constraints:
+                st_types.append(self._dominant_constraint.st_type)
+            st_types = st_types + [c.st_type for c in self._shape_constraints]
+        elif self._dominant_constraint.st_type != "IRI":
+            st_types = st_types + [c.st_type for c in self._shape_constraints]
+        if len(st_types) > 1:
+            d = self._dominant_constraint
+            self._dominant_constraint = FixedPropChoiceStatement(
+                st_property=d.st_property, st_types=st_types, cardinality=d.cardinality, probability=d.probability,
+                n_occurences=d.n_occurences, is_inverse=d.is_inverse,
+                serializer_object=self._statement_serializer_factory.get_choice_serializer(is_inverse=d.is_inverse))
+
+    round5 = [
+        ("C01", "[5.1] _look_for_last_index_of_unspaced_token ends a token at the next SPACE only (a tab no longer ends it)",
+         setattr_patch(nty.NtTriplesYielder, "_look_for_last_index_of_unspaced_token", unspaced_token_space_only)),
+        ("C10", "[5.2a] read_target_classes_from_file stops at the first blank line", patch_read_classes),
+        ("C10", "[5.2b] IRI.__eq__ compares case-insensitively", setattr_patch(iri_mod.IRI, "__eq__", iri_eq_lower)),
+        ("C12", "[5.3] _is_a_group_of_statements_with_useless_positive_closure lost its abs()",
+         setattr_patch(ass.AbstractShexingStrategy, "_is_a_group_of_statements_with_useless_positive_closure", useless_closure_without_abs)),
+        ("C13", "[5.4] disjunction built whenever the dominant constraint is not IRI (BNode / NONLITERAL dominants replaced)",
+         setattr_patch(ass.MergeableConstraints, "_tune_dominant_constraint_wrt_or_config", tune_or_not_iri)),
+    ]
+
     round4 = [
         ("C01", "[4.1] N-Triples literal token: language-tag branch uses find('@') instead of rfind('@')",
          setattr_patch(nty.NtTriplesYielder, "_look_for_last_index_of_literal_token", literal_token_find_at)),
@@ -2458,7 +2649,7 @@ def _mutants():
          setattr_patch(dss.DirectShexingStrategy, "_yield_base_shapes_direction_aware", yield_base_keep_rdf_type)),
     ]
 
-    return round4 + round3 + round2 + [
+    return round5 + round4 + round3 + round2 + [
         ("C10", "MixedInstanceTracker._integrate_dicts overwrites the labels the shape map gave a node",
          setattr_patch(mit.MixedInstanceTracker, "_integrate_dicts", integrate_overwrite)),
         ("C14", "_is_relevant_instance without IRI/BNode type check, _annotate_target_object keyed by str(): literals count as links",
